@@ -15,9 +15,22 @@ Errors: `IErr.bibtex` = a `BibTeXError` raised by the interpreter (fatal, a pybt
 `AttributeError`, `KeyError`, `IndexError`, `ValueError`): ill-typed programs, outside the domain of
 C03.  Warnings (`print_warning` = `report_error(BibTeXError(msg))`) are collected (capture mode).
 
-Known abstraction: a value pushed by `'name` is modelled as a reference *by name* into the
+Every built-in pops the same number of raw values in the same order as the Python function
+(`interpreter.pop()`: `BibTeXError('pop from empty stack')` on an empty stack, whatever the
+operand types) and only afterwards inspects them, where Python would raise.  Where Python's
+behaviour on an ill-typed operand is an ordinary result the model follows it (`=` on any two
+values, `add.period$` / `empty$` / `change.case$` on the integer 0, `warning$` on an integer,
+`substring$` with start 0, `text.prefix$` with a count <= 0, `format.name$` with a name number
+< 1, `chr.to.int$`: `BibTeXError` on anything but a one-character string), with three exceptions
+marked `unmodelled:` in the error text (Python computes the `repr` of an object there):
+`int.to.str$`, `warning$` and the `format.name$` warning on a function / variable object, and
+`write$` of a non-string (Python fails at the next `newline$`).
+
+Known abstractions: a value pushed by `'name` is modelled as a reference *by name* into the
 variable table (the code pushes the object itself); the two differ only if `INTEGERS`/`STRINGS`
-re-declares the variable while such a reference is still on the stack.
+re-declares the variable while such a reference is still on the stack.  What `top$` / `stack$`
+print for a function or variable object (its Python `repr`, which may contain a memory address)
+is the tag `<object>`.
 -/
 import PybtexModel.Model.BstParse
 import PybtexModel.Model.NameFormat
@@ -167,18 +180,65 @@ def valToStr : Val → Option Str
   | .missing _ => some []
   | _ => none
 
-/-- Python `==` between two stack values as far as the domain goes. -/
-def valEq (a b : Val) : Option Bool :=
+mutual
+/-- `==` of two elements of function bodies (`Variable.__eq__`: same class and same value;
+`Function.__eq__`: same class and equal bodies) -/
+def tokEq : BTok → BTok → Bool
+  | .int a, .int b => a == b
+  | .str a, .str b => a == b
+  | .quoted a, .quoted b => a == b
+  | .name a, .name b => a == b
+  | .fn a, .fn b => toksEq a b
+  | _, _ => false
+def toksEq : List BTok → List BTok → Bool
+  | [], [] => true
+  | a :: r, b :: t => tokEq a b && toksEq r t
+  | _, _ => false
+end
+
+/-- `==` of two variable objects; `same`: they are one object (the two names denote one slot of
+the table).  `none` = `AttributeError`: an entry variable has no `_value` attribute, so comparing
+two of the same class fails. -/
+def objEq (same : Bool) : VarObj → VarObj → Option Bool
+  | .gint a, .gint b => some (a == b)
+  | .gstr a, .gstr b => some (valToStr a == valToStr b)
+  | .eint _, .eint _ => none
+  | .estr _, .estr _ => none
+  | .func a, .func b => some (toksEq a b)
+  | .field _, .field _ => some same
+  | .crossref, .crossref => some same
+  | .builtin _, .builtin _ => some same
+  | _, _ => some false
+
+/-- Python `arg2 == arg1` between two stack values: integers and strings by value (a missing
+field is the empty string), function values by their bodies, variable objects by `objEq`,
+values of different kinds are unequal.  `none` = the comparison raises. -/
+def valEq (vars : CIDict VarObj) (a b : Val) : Option Bool :=
   match a, b with
-  | .int x, .int y => some (x = y)
-  | .int _, .str _ => some false
-  | .int _, .missing _ => some false
-  | .str _, .int _ => some false
-  | .missing _, .int _ => some false
+  | .int x, .int y => some (x == y)
+  | .fn x, .fn y => some (toksEq x y)
+  | .ref n, .ref m =>
+    match vars.getItem n, vars.getItem m with
+    | some o, some o' => objEq (lower n == lower m) o o'
+    | _, _ => none
+  | .ref n, .fn y | .fn y, .ref n =>
+    match vars.getItem n with
+    | some (.func x) => some (toksEq x y)
+    | some _ => some false
+    | none => none
   | a, b =>
     match valToStr a, valToStr b with
-    | some x, some y => some (x = y)
-    | _, _ => none
+    | some x, some y => some (x == y)
+    | _, _ => some false
+
+/-- what `top$` / `stack$` print for a value (`print(value)`): the decimal representation of an
+integer, a string as it is (a missing field is empty); the `repr` of a function or variable
+object is abstracted to a tag -/
+def printVal : Val → Str
+  | .int n => intToStr n
+  | .str x => x
+  | .missing _ => []
+  | .fn _ | .ref _ => "<object>".toList
 
 /-- `add.period$` (repaired: a string of closing braces only gets its period, as in BibTeX). -/
 def addPeriod (s : Str) : Str :=
@@ -315,9 +375,9 @@ def runBuiltin : Nat → Builtin → St → Except IErr St
         match pop s with
         | .error e => .error e
         | .ok (a2, s) =>
-          match valEq a2 a1 with
+          match valEq s.vars a2 a1 with
           | some r => .ok (push s (.int (if r then 1 else 0)))
-          | none => .error (.internal "comparison of function values")
+          | none => .error (.internal "AttributeError: _value")
     | .plus | .mul =>
       match pop s with
       | .error e => .error e
@@ -332,12 +392,15 @@ def runBuiltin : Nat → Builtin → St → Except IErr St
             | some x, some y => .ok (push s (.str (x ++ y)))
             | _, _ => .error (.internal "TypeError: +")
     | .minus =>
-      match popInt s with
+      match pop s with
       | .error e => .error e
       | .ok (a1, s) =>
-        match popInt s with
+        match pop s with
         | .error e => .error e
-        | .ok (a2, s) => .ok (push s (.int (a2 - a1)))
+        | .ok (a2, s) =>
+          match a2, a1 with
+          | .int x, .int y => .ok (push s (.int (x - y)))
+          | _, _ => .error (.internal "TypeError: -")
     | .assign =>
       match pop s with
       | .error e => .error e
@@ -373,7 +436,8 @@ def runBuiltin : Nat → Builtin → St → Except IErr St
       | .error e => .error e
       | .ok (.str x, s) => .ok (push s (.str (addPeriod x)))
       | .ok (.missing m, s) => .ok (push s (.missing m))
-      | .ok _ => .error (.internal "add.period$ of a non-string")
+      | .ok (.int 0, s) => .ok (push s (.int 0))          -- `if s:` is false for 0
+      | .ok _ => .error (.internal "AttributeError: rstrip")
     | .callType =>
       match curEntry s with
       | .error e => .error e
@@ -386,28 +450,35 @@ def runBuiltin : Nat → Builtin → St → Except IErr St
           | some o => execObj fuel o s
           | none => .ok s
     | .changeCase =>
-      match popStr s with
+      match pop s with
       | .error e => .error e
       | .ok (mode, s) =>
-        match popStr s with
+        match pop s with
         | .error e => .error e
         | .ok (str, s) =>
           match mode with
-          | [] => .error (.bibtex "empty mode string passed to change.case$")
-          | c :: _ =>
+          | .int n =>                                     -- `if not mode` … `mode[0]`
+            if n = 0 then .error (.bibtex "empty mode string passed to change.case$")
+            else .error (.internal "TypeError: mode[0]")
+          | .fn _ | .ref _ => .error (.internal "TypeError: mode[0]")
+          | .missing _ | .str [] => .error (.bibtex "empty mode string passed to change.case$")
+          | .str (c :: _) =>
             let l := lowerC c
             let m : Option CaseMode := if l = 'l' then some .l else if l = 'u' then some .u else if l = 't' then some .t else none
             match m with
             | none => .error (.bibtex "incorrect change.case$ mode")
             | some m =>
-              match changeCase str m with
-              | none => .error tooDeep
-              | some r => .ok (push s (.str r))
+              match valToStr str with
+              | none => .error (.internal "TypeError: change_case of a non-string")
+              | some str =>
+                match changeCase str m with
+                | none => .error tooDeep
+                | some r => .ok (push s (.str r))
     | .chrToInt =>
-      match popStr s with
+      match pop s with
       | .error e => .error e
-      | .ok ([c], s) => .ok (push s (.int c.toNat))
-      | .ok _ => .error (.bibtex "passed to chr.to.int$")
+      | .ok (.str [c], s) => .ok (push s (.int c.toNat))
+      | .ok _ => .error (.bibtex "passed to chr.to.int$")   -- `ord(s)` raises `TypeError` for everything else
     | .cite =>
       match s.cur with
       | some k => .ok (push s (.str k))
@@ -417,31 +488,51 @@ def runBuiltin : Nat → Builtin → St → Except IErr St
       | .error e => .error e
       | .ok (v, s) => .ok (push (push s v) v)
     | .empty =>
-      match popStr s with
+      match pop s with
       | .error e => .error e
-      | .ok (x, s) => .ok (push s (.int (if x ≠ [] ∧ !isBlank x then 0 else 1)))
+      | .ok (.str x, s) => .ok (push s (.int (if x ≠ [] ∧ !isBlank x then 0 else 1)))
+      | .ok (.missing _, s) => .ok (push s (.int 1))
+      | .ok (.int 0, s) => .ok (push s (.int 1))          -- `if s and …` is false for 0
+      | .ok _ => .error (.internal "AttributeError: isspace")
     | .formatName =>
-      match popStr s with
+      match pop s with
       | .error e => .error e
       | .ok (fmt, s) =>
-        match popInt s with
+        match pop s with
         | .error e => .error e
         | .ok (n, s) =>
-          match popStr s with
+          match pop s with
           | .error e => .error e
           | .ok (names, s) =>
-            -- repaired: a name number outside 1..count gives a warning and the empty string (as BibTeX)
-            if n < 1 ∨ n > (splitNameList names).length then
-              .ok (push (warn s ("there is no name number ".toList ++ intToStr n ++ " in \"".toList ++ names ++ "\"".toList)) (.str []))
-            else
-            match pyIndex (splitNameList names) (n - 1) with
-            | none => .error (.internal "IndexError: format.name$")
-            | some name =>
-              match formatName name fmt with
-              | .error e => .error (fmtErrToIErr e)
-              | .ok (r, tooMany) =>
-                let s := if tooMany then { s with reports := s.reports ++ [.invalidName (strip name)] } else s
-                .ok (push s (.str r))
+            match n with
+            | .int n =>
+              -- repaired: a name number outside 1..count gives a warning and the empty string (as BibTeX)
+              if n < 1 then
+                -- `1 <= n` fails before `names` is looked at; the message is `'…"{1}"'.format(n, names)`
+                match names with
+                | .str x => .ok (push (warn s ("there is no name number ".toList ++ intToStr n ++ " in \"".toList ++ x ++ "\"".toList)) (.str []))
+                | .missing _ => .ok (push (warn s ("there is no name number ".toList ++ intToStr n ++ " in \"".toList ++ "\"".toList)) (.str []))
+                | .int k => .ok (push (warn s ("there is no name number ".toList ++ intToStr n ++ " in \"".toList ++ intToStr k ++ "\"".toList)) (.str []))
+                | _ => .error (.internal "unmodelled: repr of an object in a warning")
+              else
+                match valToStr names with
+                | none => .error (.internal "TypeError: split_name_list of a non-string")
+                | some names =>
+                  if n > (splitNameList names).length then
+                    .ok (push (warn s ("there is no name number ".toList ++ intToStr n ++ " in \"".toList ++ names ++ "\"".toList)) (.str []))
+                  else
+                    match valToStr fmt with
+                    | none => .error (.internal "TypeError: format_name with a non-string format")
+                    | some fmt =>
+                      match pyIndex (splitNameList names) (n - 1) with
+                      | none => .error (.internal "IndexError: format.name$")
+                      | some name =>
+                        match formatName name fmt with
+                        | .error e => .error (fmtErrToIErr e)
+                        | .ok (r, tooMany) =>
+                          let s := if tooMany then { s with reports := s.reports ++ [.invalidName (strip name)] } else s
+                          .ok (push s (.str r))
+            | _ => .error (.internal "TypeError: 1 <= n")
     | .if_ =>
       match pop s with
       | .error e => .error e
@@ -457,6 +548,7 @@ def runBuiltin : Nat → Builtin → St → Except IErr St
       | .error e => .error e
       | .ok (n, s) =>
         if 0 ≤ n ∧ n < 0x110000 then .ok (push s (.str [Char.ofNat n.toNat]))
+        else if n < -2147483648 ∨ 2147483647 < n then .error (.internal "OverflowError: chr")   -- not a C int
         else .error (.bibtex "passed to int.to.chr$")
     | .intToStr =>
       match pop s with
@@ -464,7 +556,7 @@ def runBuiltin : Nat → Builtin → St → Except IErr St
       | .ok (.int n, s) => .ok (push s (.str (intToStr n)))
       | .ok (.str x, s) => .ok (push s (.str x))
       | .ok (.missing _, s) => .ok (push s (.str []))
-      | .ok _ => .error (.internal "int.to.str$ of a function")
+      | .ok _ => .error (.internal "unmodelled: str() of an object")
     | .missing =>
       match pop s with
       | .error e => .error e
@@ -494,25 +586,24 @@ def runBuiltin : Nat → Builtin → St → Except IErr St
     | .quote => .ok (push s (.str ['"']))
     | .skip => .ok s
     | .substring =>
-      match popInt s with
+      match pop s with
       | .error e => .error e
       | .ok (len, s) =>
-        match popInt s with
+        match pop s with
         | .error e => .error e
         | .ok (start, s) =>
-          match popStr s with
+          match pop s with
           | .error e => .error e
-          | .ok (x, s) => .ok (push s (.str (bibtexSubstring x start len)))
-    | .stack =>
-      let rec printAll : List Val → Option (List Str)
-        | [] => some []
-        | .int n :: r => (printAll r).map (intToStr n :: ·)
-        | .str x :: r => (printAll r).map (x :: ·)
-        | .missing _ :: r => (printAll r).map ([] :: ·)
-        | _ :: _ => none
-      match printAll s.stack with
-      | some l => .ok { s with stack := [], printed := s.printed ++ l }
-      | none => .error (.internal "printing a function value")
+          | .ok (x, s) =>
+            match start with
+            | .int start =>
+              if start = 0 then .ok (push s (.str []))        -- returned before the other operands are used
+              else
+                match len, valToStr x with
+                | .int len, some x => .ok (push s (.str (bibtexSubstring x start len)))
+                | _, _ => .error (.internal "TypeError: bibtex_substring")
+            | _ => .error (.internal "TypeError: start > 0")
+    | .stack => .ok { s with stack := [], printed := s.printed ++ s.stack.map printVal }
     | .swap =>
       match pop s with
       | .error e => .error e
@@ -528,30 +619,38 @@ def runBuiltin : Nat → Builtin → St → Except IErr St
         | none => .error tooDeep
         | some n => .ok (push s (.int n))
     | .textPrefix =>
-      match popInt s with
+      match pop s with
       | .error e => .error e
       | .ok (l, s) =>
-        match popStr s with
+        match pop s with
         | .error e => .error e
         | .ok (x, s) =>
-          match bibtexPrefix x l with
-          | none => .error tooDeep
-          | some r => .ok (push s (.str r))
+          match l with
+          | .int l =>
+            if l ≤ 0 then .ok (push s (.str []))              -- nothing is read from the string
+            else
+              match valToStr x with
+              | none => .error (.internal "TypeError: bibtex_prefix of a non-string")
+              | some x =>
+                match bibtexPrefix x l with
+                | none => .error tooDeep
+                | some r => .ok (push s (.str r))
+          | _ => .error (.internal "TypeError: num_chars <= 0")
     | .top =>
       match pop s with
       | .error e => .error e
-      | .ok (.int n, s) => .ok { s with printed := s.printed ++ [intToStr n] }
-      | .ok (.str x, s) => .ok { s with printed := s.printed ++ [x] }
-      | .ok (.missing _, s) => .ok { s with printed := s.printed ++ [[]] }
-      | .ok _ => .error (.internal "printing a function value")
+      | .ok (v, s) => .ok { s with printed := s.printed ++ [printVal v] }
     | .type_ =>
       match curEntry s with
       | .error e => .error e
       | .ok (_, e, _) => .ok (push s (.str e.type))
     | .warning =>
-      match popStr s with
+      match pop s with
       | .error e => .error e
-      | .ok (msg, s) => .ok (warn s msg)
+      | .ok (.str msg, s) => .ok (warn s msg)
+      | .ok (.missing _, s) => .ok (warn s [])
+      | .ok (.int n, s) => .ok (warn s (intToStr n))       -- `BibTeXError(n)`, printed as `str(n)`
+      | .ok _ => .error (.internal "unmodelled: repr of an object in a warning")
     | .while_ =>
       match pop s with
       | .error e => .error e
@@ -567,9 +666,11 @@ def runBuiltin : Nat → Builtin → St → Except IErr St
         | none => .error tooDeep
         | some w => .ok (push s (.int w))
     | .write =>
-      match popStr s with
+      match pop s with
       | .error e => .error e
-      | .ok (x, s) => .ok { s with buffer := s.buffer ++ [x] }
+      | .ok (.str x, s) => .ok { s with buffer := s.buffer ++ [x] }
+      | .ok (.missing _, s) => .ok { s with buffer := s.buffer ++ [[]] }
+      | .ok _ => .error (.internal "unmodelled: write$ of a non-string (Python fails at the next newline$)")
 
 end
 
